@@ -185,7 +185,7 @@ def auxiliary_functions_of_faulted_requests(sx, proto):
 
 # ---------------------------------------------------------------- hostile documents per protocol (beyond the generic kinds)
 from spyne import ComplexModel
-from spyne.model.primitive import Duration, DateTime, Decimal as _Dec
+from spyne.model.primitive import Duration, DateTime, Date, Decimal as _Dec
 import pytz
 from spyne.model.binary import ByteArray
 from spyne.model.complex import Array
@@ -204,6 +204,7 @@ class Item(ComplexModel):
     many = Integer(max_occurs='unbounded')
     when = DateTime(as_timezone=pytz.utc)
     stamp = DateTime(dt_format='%Y/%m/%d %H:%M')
+    day = Date
 
 
 class HostileSvc(Service):
@@ -331,6 +332,18 @@ HOSTILE['xml-http'] = {
     'text for a number': (b'<take xmlns="tns"><item><many>x</many></item></take>', {}),
 }
 HOSTILE['xml-json'] = dict(HOSTILE['xml-http'])
+# a day that no calendar has, with a zone designator (the SOAP protocols read xs:date with a reader of their own)
+for _fam, _wrap in (('xml', lambda x: x.encode()), ('soap11', lambda x: _soapb(x)), ('soap12', lambda x: _soap12b(x))):
+    for _d in ('2021-02-30Z', '2021-13-01-05:00', '0000-01-01Z'):
+        HOSTILE[_fam]['impossible day %s' % _d] = (_wrap('<take xmlns="tns"><item><day>%s</day></item></take>' % _d),
+                                                   {'CONTENT_TYPE': 'application/soap+xml'} if _fam == 'soap12' else {})
+# requests named by the URL, answered in XML: what is echoed of the request must be fit for an XML document
+HOSTILE['http-xml'] = {
+    'unknown method with a control character': (b'', {'REQUEST_METHOD': 'GET', 'PATH_INFO': '/nope\x01', 'QUERY_STRING': ''}),
+    'unknown method with a NUL': (b'', {'REQUEST_METHOD': 'GET', 'PATH_INFO': '/no\x00pe', 'QUERY_STRING': ''}),
+    'unknown method with non-ASCII letters': (b'', {'REQUEST_METHOD': 'GET', 'PATH_INFO': '/n\xc3\xb6pe', 'QUERY_STRING': ''}),
+    'control character in a value': (b'', {'REQUEST_METHOD': 'GET', 'PATH_INFO': '/take', 'QUERY_STRING': 'item.name=%01&item.many=x'}),
+}
 HOSTILE['xml']['member the schema does not know'] = (b'<take xmlns="tns"><zzz/></take>', {})
 HOSTILE['soap11']['member the schema does not know'] = (_soapb('<take xmlns="tns"><zzz/></take>'), {})
 try:
@@ -359,8 +372,8 @@ def _hostile_app(proto, validator):
         from spyne.protocol.msgpack import MessagePackDocument
         from spyne.protocol.soap import Soap12
         Pc = {'json': JsonDocument, 'xml': XmlDocument, 'soap11': Soap11, 'yaml': YamlDocument, 'msgpack': MessagePackDocument,
-              'soap12': Soap12, 'xml-http': XmlDocument, 'xml-json': XmlDocument}[proto]
-        Po = {'xml-http': HttpRpc, 'xml-json': JsonDocument}.get(proto, Pc)
+              'soap12': Soap12, 'xml-http': XmlDocument, 'xml-json': XmlDocument, 'http-xml': HttpRpc}[proto]
+        Po = {'xml-http': HttpRpc, 'xml-json': JsonDocument, 'http-xml': XmlDocument}.get(proto, Pc)
         HOSTILE_APPS[key] = Application([HostileSvc], 'tns', in_protocol=Pc(validator=validator), out_protocol=Po())
     return HOSTILE_APPS[key]
 
